@@ -553,6 +553,19 @@ Definition dom_C11 (d : gv) (p : list step) (raw : bool) : bool :=
   names_ok d p && shape_ok d p && fold_free d p
   && negb (top_method d p) && negb (raw_undefined d p raw).
 
+(* ================================================================== members that collide after the name mapping
+   The member table is keyed by lower_first(name); Go keeps the names apart: an exported field Title and an
+   unexported field title are two fields of one struct, so are an unexported field holder and a method Holder(),
+   an embedded type Inner and a field inner. Map.convert never stores an unexported field
+   (`if val.Field(i).CanInterface()`), so the order of declaration cannot matter. *)
+Definition exported_field (f : bytes * bool * gv) : bool := snd (fst f).
+Definition exported_fields (fs : list (bytes * bool * gv)) : list (bytes * bool * gv) := filter exported_field fs.
+
+(* the field part of the member table if the loop stored EVERY field, an unreadable one as Nil (which is what
+   convert answers for it): not what Map.convert does; kept to state what the guard is for *)
+Definition table_unguarded (fs : list (bytes * bool * gv)) : list (bytes * val) :=
+  build (map (fun f : bytes * bool * gv => match f with (n, e, v) => (lower_first n, if e then convert v else VNil) end) fs).
+
 (* ================================================================== histories
    The renders one process performs one after the other (on one engine or several). The Go code keeps no table that
    outlives one converted value: Map.items belongs to the *Map that one render made for one value, and neither the
